@@ -376,6 +376,27 @@ impl HelperDef for Wr {
     }
 }
 
+/// a user helper that renders a REGISTERED template through the same render context (what a layout / include helper does)
+struct Incl;
+impl HelperDef for Incl {
+    fn call<'reg: 'rc, 'rc>(
+        &self,
+        h: &Helper<'rc>,
+        r: &'reg Handlebars<'reg>,
+        ctx: &'rc Context,
+        rc: &mut RenderContext<'reg, 'rc>,
+        out: &mut dyn Output,
+    ) -> HelperResult {
+        use handlebars::Renderable;
+        if let Some(n) = h.param(0).and_then(|p| p.value().as_str()) {
+            if let Some(t) = r.get_template(n) {
+                t.render(r, ctx, rc, out)?;
+            }
+        }
+        Ok(())
+    }
+}
+
 /// like `Wr`, but through the `write!` macro with format arguments (`Output::write_fmt`): the text of the first parameter
 struct WFmt;
 impl HelperDef for WFmt {
@@ -464,6 +485,7 @@ fn mk_registry(cfg: &Value) -> Handlebars<'static> {
                 "vret" => r.register_helper(name, Box::new(VRet)),
                 "wr" => r.register_helper(name, Box::new(Wr)),
                 "wfmt" => r.register_helper(name, Box::new(WFmt)),
+                "incl" => r.register_helper(name, Box::new(Incl)),
                 "counter" => r.register_helper(name, Box::new(Counter)),
                 "macro" => {
                     let sig_name = h["sig"]["name"].as_str().unwrap();
@@ -498,6 +520,9 @@ struct FaultWriter {
     fail_at: Option<usize>,
     /// a short-write writer: accepts at most this many bytes per call
     short: Option<usize>,
+    /// what the planted io::Error is made of: "msg" (kind + message), "rerr" (a RenderError as its payload), "kind" (a bare
+    /// ErrorKind), "os" (a raw OS error), "wrapped" (an io::Error as the payload of an io::Error)
+    fault: String,
     buf: Vec<u8>,
 }
 
@@ -505,7 +530,19 @@ impl Write for FaultWriter {
     fn write(&mut self, b: &[u8]) -> std::io::Result<usize> {
         if Some(self.calls) == self.fail_at {
             self.calls += 1;
-            return Err(std::io::Error::new(std::io::ErrorKind::Other, "planted fault"));
+            return Err(match self.fault.as_str() {
+                "rerr" => std::io::Error::new(
+                    std::io::ErrorKind::Other,
+                    RenderError::from(RenderErrorReason::MissingVariable(Some("elsewhere.path".to_string()))),
+                ),
+                "kind" => std::io::ErrorKind::BrokenPipe.into(),
+                "os" => std::io::Error::from_raw_os_error(28),
+                "wrapped" => std::io::Error::new(
+                    std::io::ErrorKind::InvalidData,
+                    std::io::Error::new(std::io::ErrorKind::Other, "inner"),
+                ),
+                _ => std::io::Error::new(std::io::ErrorKind::Other, "planted fault"),
+            });
         }
         self.calls += 1;
         let n = match self.short {
@@ -532,7 +569,8 @@ fn render_once(r: &Handlebars<'static>, op: &Value) -> Value {
         Err(e) => rerr_json(&e, ""),
     };
     let short = op.get("short").and_then(|v| v.as_u64()).map(|k| k as usize);
-    let mut w = FaultWriter { calls: 0, fail_at, short, buf: vec![] };
+    let fault = op.get("fault").and_then(|v| v.as_str()).unwrap_or("msg").to_string();
+    let mut w = FaultWriter { calls: 0, fail_at, short, fault, buf: vec![] };
     let finw = |res: Result<(), RenderError>, w: &FaultWriter| {
         let written = String::from_utf8_lossy(&w.buf).to_string();
         match res {
@@ -540,6 +578,33 @@ fn render_once(r: &Handlebars<'static>, op: &Value) -> Value {
             Err(e) => rerr_json(&e, &written),
         }
     };
+    if op.get("rust_data").and_then(|v| v.as_str()) == Some("u128max") {
+        // a Rust value serde_json cannot represent: every entry point fails with the serialization error, whatever else is wrong
+        let big = u128::MAX;
+        return match api {
+            "render" => fin(r.render(name, &big)),
+            "render_with_context" => fin(Context::wraps(&big).and_then(|c| r.render_with_context(name, &c))),
+            "render_to_write" => {
+                let res = r.render_to_write(name, &big, &mut w);
+                finw(res, &w)
+            }
+            "render_with_context_to_write" => {
+                let res = Context::wraps(&big).and_then(|c| r.render_with_context_to_write(name, &c, &mut w));
+                finw(res, &w)
+            }
+            "render_template" => fin(r.render_template(src, &big)),
+            "render_template_with_context" => fin(Context::wraps(&big).and_then(|c| r.render_template_with_context(src, &c))),
+            "render_template_to_write" => {
+                let res = r.render_template_to_write(src, &big, &mut w);
+                finw(res, &w)
+            }
+            "render_template_with_context_to_write" => {
+                let res = Context::wraps(&big).and_then(|c| r.render_template_with_context_to_write(src, &c, &mut w));
+                finw(res, &w)
+            }
+            other => json!({"r":"panic","site":format!("runner.unknown_api {}", other)}),
+        };
+    }
     match api {
         "render" => fin(r.render(name, &data)),
         "render_with_context" => fin(Context::wraps(&data).and_then(|c| r.render_with_context(name, &c))),
@@ -627,7 +692,13 @@ fn step_op(s: &mut Session, op: &Value) -> Value {
         }
         "write_file" => {
             std::fs::create_dir_all(&s.dir).unwrap();
-            std::fs::write(file(s, op), op["content"].as_str().unwrap_or("")).unwrap();
+            if let Some(hx) = op.get("bytes_hex").and_then(|v| v.as_str()) {
+                // raw bytes (e.g. not valid UTF-8)
+                let bytes: Vec<u8> = (0..hx.len() / 2).map(|k| u8::from_str_radix(&hx[2 * k..2 * k + 2], 16).unwrap()).collect();
+                std::fs::write(file(s, op), bytes).unwrap();
+            } else {
+                std::fs::write(file(s, op), op["content"].as_str().unwrap_or("")).unwrap();
+            }
             json!({"r":"ok"})
         }
         "delete_file" => {
